@@ -58,7 +58,12 @@ func c12EncryptObserved(c c12Enc, segs []int) ([]byte, error) {
 			if accepted+s > c.PlainLen {
 				s = c.PlainLen - accepted
 			}
-			n, err := w.Write(plain[accepted : accepted+s])
+			// the caller's buffer is reused (overwritten) right after Write returns
+			scratch := append([]byte{}, plain[accepted:accepted+s]...)
+			n, err := w.Write(scratch)
+			for i := range scratch {
+				scratch[i] = 0x5A
+			}
 			if err != nil {
 				vio = pbt.Failf("C12/encrypt-failed", "Write: %v", err)
 				return
